@@ -101,6 +101,13 @@ fn shape_to_geo(tr: &mut Trace, c: &Conc, a: &AShape) {
         Ok(None) => json!({"t": -1, "parts": [], "kinds": [], "box": [0, 0, 0, 0, 0, 0, 0, 0]}),
         Err(_) => json!({"t": -2, "parts": [], "kinds": [], "box": [0, 0, 0, 0, 0, 0, 0, 0]}),
     };
+    // a Coord converts back to a point of each type as well
+    let backc: Value = match &s {
+        Shape::Point(p) => abstract_shape(c, &Shape::Point(Point::from(gt::Coord::<f64>::from(*p)))).to_json(),
+        Shape::PointM(p) => abstract_shape(c, &Shape::PointM(PointM::from(gt::Coord::<f64>::from(*p)))).to_json(),
+        Shape::PointZ(p) => abstract_shape(c, &Shape::PointZ(PointZ::from(gt::Coord::<f64>::from(*p)))).to_json(),
+        _ => json!({"t": -1, "parts": [], "kinds": [], "box": [0, 0, 0, 0, 0, 0, 0, 0]}),
+    };
     // points also convert to a Coord
     let coord: Value = match &s {
         Shape::Point(p) => gxy(c, &gt::Coord::<f64>::from(*p)),
@@ -109,7 +116,7 @@ fn shape_to_geo(tr: &mut Trace, c: &Conc, a: &AShape) {
         _ => json!([]),
     };
     let _ = t;
-    tr.emit(json!({"ev": "shape2geo", "shape": orig.to_json(), "variant": variant, "refused": refused, "g": gj, "back": back, "coord": coord}));
+    tr.emit(json!({"ev": "shape2geo", "shape": orig.to_json(), "variant": variant, "refused": refused, "g": gj, "back": back, "coord": coord, "backc": backc}));
 }
 
 /// a closed ring of lo..lo+span distinct-ish vertices
